@@ -81,48 +81,15 @@ func c18(w *core.World, r *core.Report) {
 
 	r.Rule("R18.5", "a unit is emitted only on the builder's success edge", 1)
 	if f := fn(w, r, "(*syncer.RedisOutput).parseAofReplayUnits"); f != nil {
-		var emit *ssa.Function
-		emitArg := 0 // which of the emitter's parameters is the unit it sends
-		// the emitter: a closure of the parser, or a function the parser (or one of its closures) calls, that
-		// sends one of its parameters, a unit, on a channel
-		cands := append([]*ssa.Function(nil), core.DeepFuncs(f)[1:]...)
-		for _, g := range core.DeepFuncs(f) {
-			for _, s := range core.Sites(g, false) {
-				if s.Callee != nil && s.Callee.Parent() == nil && len(s.Callee.Blocks) > 0 && !s.Common().IsInvoke() {
-					cands = append(cands, s.Callee)
-				}
-			}
-		}
-		for _, c := range cands {
-			for _, in := range core.OwnInstrs(c) {
-				var sent []ssa.Value
-				switch x := in.(type) {
-				case *ssa.Select:
-					for _, st := range x.States {
-						if st.Send != nil {
-							sent = append(sent, st.Send)
-						}
-					}
-				case *ssa.Send:
-					sent = append(sent, x.X)
-				}
-				for _, v := range sent {
-					if !strings.HasSuffix(v.Type().String(), "bisyncReplayUnit") {
-						continue
-					}
-					for k, par := range c.Params {
-						if ssa.Value(par) == v {
-							emit, emitArg = c, k
-						}
-					}
-				}
-			}
-		}
+		// the function that emits: a closure of the parser, or a function of the package the parser calls, that sends
+		// a unit on a channel (unitEmitters, r7_n3.go: with the position of the unit among its arguments)
+		emitters := unitEmitters(f)
 		n := 0
 		// the emit closure is called from the parser itself, or from a closure that builds and emits
 		for _, g := range core.DeepFuncs(f) {
 			for _, s := range core.Sites(g, false) {
-				if emit == nil || s.Callee != emit || s.Instr.Parent() != g {
+				unitArg, isEmit := emitters[s.Callee]
+				if s.Callee == nil || !isEmit || s.Instr.Parent() != g || unitArg >= len(s.Common().Args) {
 					continue
 				}
 				n++
@@ -135,7 +102,7 @@ func c18(w *core.World, r *core.Report) {
 					}
 				}
 				for _, bs := range builds {
-					if core.Dominates(bs.Instr, s.Instr) && core.OnSuccessOf(s.Instr.Block(), bs.Value()) && emitArg < len(s.Common().Args) && core.Unwrap(s.Common().Args[emitArg]) == extractOf(bs.Value(), 0) {
+					if core.Dominates(bs.Instr, s.Instr) && core.OnSuccessOf(s.Instr.Block(), bs.Value()) && core.Unwrap(s.Common().Args[unitArg]) == extractOf(bs.Value(), 0) {
 						okB = true
 					}
 				}
